@@ -1,9 +1,13 @@
-(* Property theorems for C35 / C36 (statements only; proofs are in Proofs*.v). *)
-From Coq Require Import String.
-From VP Require Import Base.Tactics Raft.Model Raft.Arms Raft.Gen_Commands Raft.ProofsSM.
+(* Property theorems for C35 / C36: statements only, each proved by a lemma of Proofs*.v.
+   All of them are about the definitions of Raft/Model.v that Raft/Run.v evaluates in the
+   correspondence checks. *)
+From Coq Require Import String Sorting.Sorted.
+From VP Require Import Base.Tactics Raft.Model Raft.Arms Raft.Gen_Commands Raft.ProofsSM Raft.ProofsLog Raft.ProofsRecover.
 Open Scope Z_scope.
 
-(* ---- C35: same committed log, any batching => same replicated state (both stores) *)
+(* ====================================================================== C35 *)
+
+(* ---- same committed log, any batching => same replicated state, on every store *)
 Theorem C35_batching_mem : forall (batches : list (list entry)) (s : mstore),
     ms_sm (fold_left (fun s b => ms_step s (OApply b)) batches s) = sm_apply (concat batches) (ms_sm s).
 Proof. exact ms_apply_batches. Qed.
@@ -12,8 +16,152 @@ Theorem C35_batching_rocks : forall (batches : list (list entry)) (s : rstore),
     r_sm (fold_left (fun s b => rs_step s (OApply b)) batches s) = sm_apply (concat batches) (r_sm s).
 Proof. exact rs_apply_batches. Qed.
 
+(* the replicated state is the fold of apply_command over the log's commands; apply_all (l1 ++ l2) = apply_all l2 . apply_all l1 *)
 Theorem C35_state_is_fold : forall es v, sv_state (sm_apply es v) = apply_all (cmds_of es) (sv_state v).
 Proof. exact sm_apply_state. Qed.
-
 Theorem C35_apply_all_app : forall l1 l2 s, apply_all (l1 ++ l2) s = apply_all l2 (apply_all l1 s).
 Proof. exact apply_all_app. Qed.
+
+(* ---- snapshot taken at any index (after es1), installed on ANY store state, then the rest = full replay *)
+Theorem C35_snapshot_mem : forall (es1 es2 : list entry) (s0 : mstore),
+    ms_sm (ms_run [OInstall (leader_snapshot es1); OApply es2] s0) = sm_apply (es1 ++ es2) smv0.
+Proof. intros. cbn. apply snapshot_then_rest. Qed.
+Theorem C35_snapshot_rocks : forall (es1 es2 : list entry) (s0 : rstore),
+    r_sm (rs_run [OInstall (leader_snapshot es1); OApply es2] s0) = sm_apply (es1 ++ es2) smv0.
+Proof. intros. cbn. apply snapshot_then_rest. Qed.
+
+(* ---- the two stores are observationally equal on every call sequence (vote, log, purge position,
+        state machine, current snapshot), hence also in get_log_state *)
+Theorem C35_stores_agree : forall ops, agree (ms_run ops mstore0) (rs_run ops rstore0).
+Proof. intros. apply agree_run; [constructor|exact agree0]. Qed.
+Theorem C35_stores_agree_log_state : forall ops, ms_log_state (ms_run ops mstore0) = rs_log_state (rs_run ops rstore0).
+Proof. intros. apply agree_log_state, C35_stores_agree. Qed.
+
+(* ---- storage contract *)
+(* reachable logs are sorted by index (what the lemmas below assume) *)
+Theorem C35_contract_sorted : forall ops, log_sorted (ms_log (ms_run ops mstore0)).
+Proof. intros. apply ms_run_sorted. constructor. Qed.
+(* get_log_state: last_log_id is the id of the entry with the largest index ... *)
+Theorem C35_contract_last_log_id : forall ops x,
+    log_last (ms_log (ms_run ops mstore0)) = Some x ->
+    snd (ms_log_state (ms_run ops mstore0)) = Some x /\
+    exists i e, In (i, e) (ms_log (ms_run ops mstore0)) /\ x = e_id e /\
+                forall p, In p (ms_log (ms_run ops mstore0)) -> fst p <= i.
+Proof.
+  intros ops x H. split.
+  - unfold ms_log_state. cbn [snd]. now rewrite H.
+  - apply log_last_max; [apply C35_contract_sorted|exact H].
+Qed.
+(* ... and falls back to last_purged when the log is empty; in particular after purging everything *)
+Theorem C35_contract_last_log_id_empty : forall s, ms_log s = [] -> ms_log_state s = (ms_purged s, ms_purged s).
+Proof. intros s H. unfold ms_log_state. rewrite H. reflexivity. Qed.
+Theorem C35_contract_purge_everything : forall s l,
+    (forall p, In p (ms_log s) -> fst p <= l_index l) -> ms_log_state (ms_step s (OPurge l)) = (Some l, Some l).
+Proof. exact purge_all_log_state. Qed.
+(* try_get_log_entries returns exactly the entries whose index is in the range (in index order: filter of a sorted log);
+   the RocksDB seek/iterate/break version computes the same on reachable logs *)
+Theorem C35_contract_range : forall lo hi l e,
+    In e (mem_range lo hi l) <-> exists i, In (i, e) l /\ in_range lo hi i = true.
+Proof. exact mem_range_spec. Qed.
+Theorem C35_contract_range_rocks : forall lo hi l, log_sorted l -> log_nonneg l -> rk_range lo hi l = mem_range lo hi l.
+Proof. exact rk_range_eq. Qed.
+Theorem C35_contract_nonneg : forall ops, Forall op_nonneg ops -> log_nonneg (ms_log (ms_run ops mstore0)).
+Proof. intros. apply ms_run_nonneg; [assumption|constructor]. Qed.
+(* append overwrites / inserts, purge removes exactly the indices <= i, delete-conflict exactly those >= i *)
+Theorem C35_contract_append : forall j i e l, log_get j (log_insert i e l) = if j =? i then Some e else log_get j l.
+Proof. exact log_get_insert. Qed.
+Theorem C35_contract_purge : forall j i l, log_get j (mem_purge_upto i l) = if j <=? i then None else log_get j l.
+Proof. exact log_get_purge. Qed.
+Theorem C35_contract_delete : forall j i l, log_get j (mem_delete_since i l) = if i <=? j then None else log_get j l.
+Proof. exact log_get_delete. Qed.
+Theorem C35_contract_purge_rocks : forall i l, log_sorted l -> rk_purge_upto i l = mem_purge_upto i l.
+Proof. exact rk_purge_upto_eq. Qed.
+Theorem C35_contract_delete_rocks : forall i l, log_sorted l -> rk_delete_since i l = mem_delete_since i l.
+Proof. exact rk_delete_since_eq. Qed.
+(* vote round trip; current snapshot is None until one is built or installed, then the last one *)
+Theorem C35_contract_vote : forall m o, ms_vote (ms_step m o) = match o with OVote v => Some v | _ => ms_vote m end.
+Proof. exact ms_vote_step. Qed.
+Theorem C35_contract_snapshot : forall m o,
+    ms_snap mstore0 = None /\
+    ms_snap (ms_step m o) = match o with OBuild => Some (sm_snapshot (ms_sm m)) | OInstall sn => Some sn | _ => ms_snap m end.
+Proof. intros. split; [reflexivity|apply ms_snap_step]. Qed.
+
+(* ---- apply_command's only panic site (indexing a stored migration that is not an object) is unreachable *)
+Theorem C35_no_index_panic : forall es1 es2, sm_panics es2 (sm_apply es1 smv0) = false.
+Proof.
+  intros. apply sm_no_panic. rewrite sm_apply_state. apply migs_ok_apply_all. exact migs_ok0.
+Qed.
+
+(* ---- translator tie: the arms / WorkerEntry literal regenerated from state_machine.rs are the model's,
+        and the model's table describes what Model.apply_command does *)
+Theorem C35_arms_match : forall c, gen_arm c = model_arm c.
+Proof. intros []; reflexivity. Qed.
+Theorem C35_register_init_match : gen_register_init = model_register_init.
+Proof. reflexivity. Qed.
+Theorem C35_variants_match : gen_variant_names = model_variant_names /\ gen_field_names = model_field_names.
+Proof. split; reflexivity. Qed.
+Theorem C35_arm_frame : forall s c f, f <> a_field (model_arm c) -> same_on f s (apply_command s c).
+Proof. exact arm_frame. Qed.
+Theorem C35_arm_effect : forall s c k,
+    cmd_key c = Some k ->
+    match a_action (model_arm c) with
+    | AInsert | AInsertIfStrId => has_key (a_field (model_arm c)) k (apply_command s c) = true
+    | ARemove => has_key (a_field (model_arm c)) k (apply_command s c) = false
+    | AUpdateIfPresent => has_key (a_field (model_arm c)) k (apply_command s c) = has_key (a_field (model_arm c)) k s
+    | AAssign => True
+    end.
+Proof. exact arm_effect. Qed.
+
+(* ====================================================================== C36 *)
+
+(* After a crash before or after any storage write of a protocol-conforming history, the reopened store
+   (a) reads back exactly the disk the crash left (vote, log, purge position, applied position, snapshot), and
+   (b) its state machine (state, applied position, membership) is the replay of the committed log G up to the
+       persisted applied position. *)
+Theorem C36_recover : forall (G : list entry) (ops : list op) (d : disk),
+    ground_ok G -> wf_hist G rstore0 ops -> In d (crash_disks ops rstore0) ->
+    r_disk (ropen d) = d /\
+    r_sm (ropen d) = sm_apply (gprefix G (acnt (d_applied d))) smv0.
+Proof. exact recover_after_crash. Qed.
+
+(* in particular the replicated state is apply_all of the committed commands up to that position *)
+Theorem C36_recover_state : forall G ops d,
+    ground_ok G -> wf_hist G rstore0 ops -> In d (crash_disks ops rstore0) ->
+    sv_state (r_sm (ropen d)) = apply_all (cmds_of (gprefix G (acnt (d_applied d)))) cstate0.
+Proof.
+  intros G ops d Hg Hwf Hin. destruct (C36_recover G ops d Hg Hwf Hin) as [_ ->]. apply sm_apply_state.
+Qed.
+
+(* a restart without a crash is invisible *)
+Theorem C36_restart_invisible : forall G ops,
+    ground_ok G -> wf_hist G rstore0 ops -> ropen (r_disk (rs_run ops rstore0)) = rs_run ops rstore0.
+Proof. intros G ops Hg Hwf. apply (recover_under_inv G); auto. apply inv_run; auto. apply inv0. Qed.
+
+(* Non-vacuity: a conforming history with a snapshot, a purge of applied entries and a snapshot installation;
+   the disk left by a crash after the purge recovers a non-empty state that is no longer in the log. *)
+Definition ex_cmd (k : N) : command := GroupDeployed k (JNum 1).
+Definition ex_G : list entry :=
+  [ {| e_id := {| l_term := 1; l_node := 1; l_index := 0 |}; e_pl := PMember 3%N |};
+    {| e_id := {| l_term := 1; l_node := 1; l_index := 1 |}; e_pl := PNormal (ex_cmd 5%N) |};
+    {| e_id := {| l_term := 1; l_node := 1; l_index := 2 |}; e_pl := PNormal (ex_cmd 6%N) |};
+    {| e_id := {| l_term := 2; l_node := 1; l_index := 3 |}; e_pl := PNormal (GroupRemoved 5%N) |} ].
+Definition ex_ops : list op :=
+  [ OAppend (firstn 3 ex_G); OApply (firstn 2 ex_G); OBuild;
+    OPurge {| l_term := 1; l_node := 1; l_index := 1 |}; OApply (firstn 1 (skipn 2 ex_G));
+    OInstall (leader_snapshot ex_G); OVote {| v_term := 2; v_node := 1; v_committed := true |} ].
+
+Example C36_example_conforming : ground_ok ex_G /\ wf_hist ex_G rstore0 ex_ops.
+Proof.
+  split.
+  - intros k e H. do 4 (destruct k as [|k]; [inv H; reflexivity|]). destruct k; discriminate.
+  - cbn [wf_hist ex_ops]. repeat split.
+    all: try (repeat constructor; vm_compute; discriminate).
+    all: try (vm_compute; reflexivity).
+    exists 4. split; [vm_compute; split; [reflexivity|discriminate]|reflexivity].
+Qed.
+
+Example C36_example_nontrivial :
+  exists d, nth_error (crash_disks ex_ops rstore0) 4 = Some d /\
+            map fst (d_log d) = [2] /\
+            pipeline_groups (sv_state (r_sm (ropen d))) = [(5%N, JNum 1)].
+Proof. eexists. split; [reflexivity|]. split; vm_compute; reflexivity. Qed.
